@@ -107,7 +107,7 @@ def run(ctx):
     # section of Calls x Histories that is replayed.  quick: every routine with ONE argument set, rotated by the seed
     # (the thorough tier replays every argument set); per call the mandatory histories (NaN pattern, no prior call,
     # 1 and 16 threads) plus `extra` histories taken at a seed-rotated stride through the enumeration.
-    extra = 5 if quick else 24
+    extra = 5 if quick else 72
     mand = [hh for hh in hists if not hh["prior"] and hh["byte"] == 255 and hh["threads"] in (1, 16)]
     rest = [hh for hh in hists if hh not in mand]
     pairs = []
